@@ -92,3 +92,20 @@ Proof.
   eexists; eexists; split; [vm_compute; reflexivity|]. eexists; eexists; split; [vm_compute; reflexivity|].
   vm_compute; split; reflexivity.
 Qed.
+
+Require Import Pams.Sim Pams.SimInv Pams.SimBooks Pams.SimMarketLift.
+
+(* IN EVERY SIMULATION: the storage invariant - and the lifetime invariant of the books - hold for every market of every run
+   (distinct market ids; accepted orders with positive volume and time-to-live, as Order.__init__ enforces), whatever the configuration,
+   tape, agent behaviour and events.  So the per-operation rules above (C08_after_accepted_order / _cancel / _fill, C08_at_clock_step),
+   whose premises are exactly these invariants, apply at every accepted order, cancel, fill and clock step of every simulation.
+   Instance of SimMarketLift.market_invariant_of_every_run (stated in props/C04.v). *)
+Theorem C08_storage_invariant_in_every_run : forall c tape batches funds,
+  NoDup (map mc_id (c_markets c)) ->
+  let s := run c tape batches funds in
+  valid_tr s -> forall x, In x (s_markets s) -> store_ok (mk_m x) /\ MarketLife.life_ok (mk_m x).
+Proof.
+  intros c tape batches funds N s V x Hx. split; [exact (price_store_ok_in_every_run c tape batches funds N V x Hx)|].
+  exact (markets_of_a_run_are_well_formed c tape batches funds V x Hx).
+Qed.
+Print Assumptions C08_storage_invariant_in_every_run.
